@@ -766,8 +766,8 @@ def ledger_noise(ledger, a, b, names, s):
 
 def units_for(s, rng=None):
     if R.is_enzyme(s):
-        return ['U', 'mg', 'g', 'uL']
-    return ['umol', 'mmol', 'mol', 'mg', 'g', 'uL', 'mL']
+        return ['U', 'mg', 'g', 'uL', 'ng', 'nL', None]
+    return ['umol', 'mmol', 'mol', 'mg', 'g', 'uL', 'mL', 'cmol', 'nmol', 'dag', 'ng', 'kL', 'nL', None]
 
 
 def check_c09(prog, pdesc, rs, r, res, ledger, case, handles):
@@ -791,11 +791,17 @@ def check_c09(prog, pdesc, rs, r, res, ledger, case, handles):
                     if rs[k]['op'] == 'remove':
                         t = rs[k]['dst'][0]
                         exp += amount(ledger[k].get(t), s) - amount(ledger[k + 1].get(t), s)
-                unit = rnd.choice(units_for(s))
+                unit_arg = rnd.choice(units_for(s))
+                unit = unit_arg if unit_arg is not None else ('U' if R.is_enzyme(s) else cf.moles_display_unit)
                 noise = ledger_noise(ledger, a, b, list(dn) + [rs[k]['dst'][0] for k in range(a, b) if rs[k]['op'] == 'remove'], s)
                 M.count('C09.query')
                 try:
-                    got = r.get_substance_used(s, tf, unit, 'plates' if dests is None else [handles[nme] for nme in dests])
+                    if unit_arg is None and dests is None and tf == 'all':
+                        got = r.get_substance_used(s)                     # every default
+                    elif unit_arg is None:
+                        got = r.get_substance_used(substance=s, timeframe=tf, destinations='plates' if dests is None else tuple(handles[nme] for nme in dests))
+                    else:
+                        got = r.get_substance_used(s, tf, unit, 'plates' if dests is None else [handles[nme] for nme in dests])
                     gexc = None
                 except (MonitorBug, InjectedFault):
                     raise
@@ -877,7 +883,7 @@ def check_c15(prog, pdesc, rs, r, res, ledger, case, handles):
             plate = is_plate(res[nme])
             solvent_container_only = all(
                 rs[k]['op'] == 'solution' and isinstance(rs[k]['solvent'], str) and rs[k]['solvent'] == nme for k in ks)
-            for unit in rnd.sample(['uL', 'mL', 'mg', 'g', 'umol', 'mol', 'U'], 3):
+            for unit in rnd.sample(['uL', 'mL', 'mg', 'g', 'umol', 'mol', 'U', 'nL', 'kL', 'ng', 'dag', 'cmol', 'nmol'], 4):
                 prec = cf.precision(unit)
                 half = 0.5 * 10.0 ** (-prec) * 1.000001
                 p_, base = R.split_unit(unit)
